@@ -454,7 +454,8 @@ def check_C12(tier, seed):
     libw = ['stream', 'channel', 'prng', 'keystore', 'cppobj', 'masked']
     if tier == 'quick':
         plan = [('asm', (4, 2, 4), 'san', libw, 20000), ('c64', (3, 3, 3), 'san', ['stream', 'channel', 'masked', 'cppobj'], 12000),
-                ('c32', (2, 1, 2), 'san', ['channel', 'masked', 'keystore'], 12000), ('dxor', (4, 4, 4), 'san', ['stream', 'channel', 'masked'], 8000)]
+                ('c32', (2, 1, 2), 'san', ['stream', 'channel', 'masked', 'keystore', 'cppobj'], 12000), ('dxor', (4, 4, 4), 'san', ['stream', 'channel', 'masked'], 8000),
+                ('gen', (4, 2, 4), 'san', ['stream', 'channel'], 8000)]
         nb, ncli = 40000, 4000
     else:
         plan = [(be, sh, 'san', libw, 30000) for be, sh in [('asm', (4, 2, 4)), ('asm', (3, 1, 3)), ('asm', (2, 2, 2)), ('c64', (3, 3, 3)), ('c64', (4, 4, 4)), ('c64', (2, 1, 2)),
@@ -473,7 +474,7 @@ def check_C12(tier, seed):
     return o.finish()
 
 
-C09_WORLDS = [('stream', 12000), ('channel', 12000), ('prng', 3000), ('keystore', 8000), ('cppobj', 10000), ('bytes', 8000)]
+C09_WORLDS = [('stream', 8000), ('channel', 8000), ('prng', 1500), ('keystore', 5000), ('cppobj', 6000), ('bytes', 4000)]
 
 
 def _diff_shrink(exes, lines, tier, env, max_runs=200, max_s=60):
@@ -521,7 +522,9 @@ def check_C09(tier, seed):
                      'world masked is not part of the differential replay (its plans depend on MAX_SHARES); masked AEAD outputs are compared through world channel',
                      'checker build: death of the process by the library\'s own abort() is the violation']
     if tier == 'quick':
-        cfgs = [('asm', (4, 2, 4)), ('c64', (4, 2, 4)), ('c32', (4, 2, 4)), ('dxor', (4, 2, 4)), ('gen', (4, 2, 4)), ('c64', (2, 1, 2)), ('c32', (3, 3, 3)), ('asm', (4, 4, 4)), ('c64', (3, 1, 4)), ('asm', (2, 2, 3))]
+        # every masked backend family (asm, c64, c32) sees data shares 1..4 somewhere in the cover
+        cfgs = [('asm', (4, 2, 4)), ('c64', (4, 2, 4)), ('c32', (4, 2, 4)), ('dxor', (4, 2, 4)), ('gen', (4, 2, 4)), ('c64', (2, 1, 2)), ('c32', (3, 3, 3)), ('asm', (4, 4, 4)),
+                ('c64', (4, 3, 4)), ('asm', (3, 3, 3)), ('c32', (4, 4, 4)), ('asm', (3, 1, 4)), ('c64', (4, 4, 4)), ('c32', (2, 1, 3))]
         chk = [(4, 2, 4), (2, 1, 2), (3, 3, 3)]
         scale = 1
     else:
@@ -533,12 +536,15 @@ def check_C09(tier, seed):
     known_hit, replays = [], []
     ref_be, ref_sh = cfgs[0]
     pairs_compared = 0
+    ref_hists, ref_exes, late_diffs = {}, {}, []
     for world, n in C09_WORLDS:
         n *= scale
         ref_exe = world_exe(world, ref_be, ref_sh, 'rel')
         ref = D.run_batch(ref_exe, n, tier, seed, label='%s@%s-%d%d%d' % (world, ref_be, *ref_sh), crash_prop='C09x')
         o.add(ref)
         ref_h = {r.idx: r.hist for r in ref.runs}
+        ref_hists[world] = ref_h
+        ref_exes[world] = (ref_exe, ref.env)
         for be, sh in cfgs[1:]:
             exe = world_exe(world, be, sh, 'rel')
             k = n if tier == 'quick' or sh == (4, 2, 4) else n // 4
@@ -548,6 +554,13 @@ def check_C09(tier, seed):
             pairs_compared += sum(1 for r in b.runs if r.idx in ref_h)
             if not bad:
                 continue
+            late_diffs.append((world, be, sh, exe, bad, len(b.runs)))
+    def report_divergence(world, be, sh, exe, bad, nruns_cfg):
+            nonlocal violations
+            ref_exe, ref_env = ref_exes[world]
+            class _R: pass
+            ref = _R(); ref.env = ref_env
+            b = _R(); b.runs = [None] * nruns_cfg
             idx = bad[0]
             cls = D.VClass('C09', 'history_digest_differs_across_configurations', '%s:%s-%d%d%d' % (world, be, *sh))
             lines = D.gen_plan(ref_exe, idx, tier, ref.env)
@@ -572,15 +585,27 @@ def check_C09(tier, seed):
                 print('VIOLATION property=C09 replay=%s' % rp)
                 print('  class=%s detail=%d of %d runs give a different history digest than %s-%d%d%d; minimised plan has %d operations' % (
                     cls.key(), len(bad), len(b.runs), ref_be, *ref_sh, len(small)))
+    for d in late_diffs:
+        report_divergence(*d)
+    late_diffs = []
     # (2) the acquire/release checker build under the same interleaved multi-object histories
     for sh in chk:
         for world, n in C09_WORLDS:
             if world == 'bytes':
                 continue
             exe = world_exe(world, 'chk', sh, 'rel')
-            o.add(D.run_batch(exe, n * scale // 2, tier, seed, label='%s@chk-%d%d%d' % (world, *sh), crash_prop='C09'))
+            b = D.run_batch(exe, n * scale // 2, tier, seed, label='%s@chk-%d%d%d' % (world, *sh), crash_prop='C09')
+            o.add(b)
+            # the checker build is one more configuration: its digests must equal the reference as well
+            rh = ref_hists.get(world, {})
+            bad = sorted(r.idx for r in b.runs if r.idx in rh and rh[r.idx] != r.hist)
+            pairs_compared += sum(1 for r in b.runs if r.idx in rh)
+            if bad:
+                late_diffs.append((world, 'chk', sh, exe, bad, len(b.runs)))
         exe = world_exe('masked', 'chk', sh, 'rel')
         o.add(D.run_batch(exe, 4000 * scale, tier, seed, label='masked@chk-%d%d%d' % sh, crash_prop='C09'))
+    for d in late_diffs:
+        report_divergence(*d)
     o.extra['configurations'] = ['%s-%d%d%d' % (be, *sh) for be, sh in cfgs] + ['chk-%d%d%d' % sh for sh in chk]
     o.extra['cross_configuration_pairs_compared'] = pairs_compared
     o.extra['distinct_states_measure'] = 'union of the state tuples of the reused worlds, per configuration'
